@@ -163,6 +163,11 @@ func makeReply(ty tq.HeaderType, op string, p *Pkt) (tq.EncoderDecoder, string) 
 		} else if st == tq.AuthenStatusRestart {
 			st = tq.AuthenStatusPass
 		}
+		if op == "badreply" && p.Bv%2 == 1 {
+			// a reply whose fields are valid one by one but whose body is larger than a packet may carry (65 536 octets): the
+			// marshalling succeeds, the write is refused
+			return tq.NewAuthenReply(tq.SetAuthenReplyStatus(st), tq.SetAuthenReplyServerMsg(pad(65535, 'm')), tq.SetAuthenReplyData(tq.AuthenData(pad(100, 'd')))), "AuthenReply"
+		}
 		if op == "badreply" {
 			st = 0
 		}
